@@ -71,9 +71,9 @@ func firstLine(s string) string {
 }
 
 func checkC01(r *evid.Run) {
-	cfg, nconc, timeout := "MC_C01_quick.cfg", 4, 5*time.Minute
+	cfg, nconc, timeout := "MC_C01_quick.cfg", 7, 5*time.Minute
 	if r.Tier == "thorough" {
-		cfg, nconc, timeout = "MC_C01_thorough.cfg", 6, 20*time.Minute
+		cfg, nconc, timeout = "MC_C01_thorough.cfg", 7, 30*time.Minute
 	}
 	concs := tok.Concs(r.Seed, nconc, allChunkIDs)
 	names := []string{}
